@@ -334,6 +334,11 @@ func sortedFuncInfos(prog *Program) []*FuncInfo {
 			out = append(out, fi)
 		}
 	}
+	for _, fi := range prog.AspectFuncs {
+		if fi.Kind == KContract && fi.Spec != nil && !fi.Spec.Trusted {
+			out = append(out, fi)
+		}
+	}
 	sort.Slice(out, func(i, j int) bool { return out[i].Key < out[j].Key })
 	return out
 }
